@@ -26,9 +26,9 @@ def SEL(maxlen, scope, docset, funcs=False, spell='canon', fset='full'):
 def c01(tier):
     if tier == 'quick':
         return [sel('pairs', 'C01', SEL(2, 'pairs', 'small'), ['LawFailsIffEmpty', 'Emit']), EXTRAS('C01'), SLICES('C01'),
-                traceB_eval(2500, 150000, 'C01,C03,C04', EVAL_ATTR)]
+                traceB_eval(2500, 60000, 'C01,C03,C04', EVAL_ATTR)]
     return [sel('pairs', 'C01', SEL(2, 'pairs', 'full'), ['LawFailsIffEmpty', 'Emit'], timeout=1800), SLICES('C01'),
-            traceB_eval(2500, 150000, 'C01,C03,C04', EVAL_ATTR),
+            traceB_eval(2500, 60000, 'C01,C03,C04', EVAL_ATTR),
             sel('triples', 'C01', SEL(3, 'triples', 'full'), ['LawFailsIffEmpty', 'Emit'], timeout=3600),
             sel('funcs', 'C01', SEL(2, 'triples', 'full', funcs=True), ['Emit'], timeout=1800)]
 
@@ -83,10 +83,10 @@ def mech_mutant():
 def c15(tier):
     if tier == 'quick':
         return [mech('triples', 2, 'small'), sel('pairs', 'C15', SEL(2, 'pairs', 'small'), ['Emit']), EXTRAS('C15'),
-                sel('one-step-funcs', 'C15', SEL(1, 'triples', 'small', funcs=True, fset='small'), ['Emit']), traceB_eval(6000, 200000, 'C15', EVAL_ATTR)]
+                sel('one-step-funcs', 'C15', SEL(1, 'triples', 'small', funcs=True, fset='small'), ['Emit']), traceB_eval(6000, 60000, 'C15', EVAL_ATTR)]
     return [mech('pairs', 2, 'small', 7200), mech('triples', 3, 'small', 7200), mech_mutant(),
             sel('pairs', 'C15', SEL(2, 'pairs', 'full'), ['Emit'], timeout=3600), sel('triples', 'C15', SEL(3, 'triples', 'full'), ['Emit'], timeout=7200),
-            traceB_eval(6000, 200000, 'C15', EVAL_ATTR)]
+            traceB_eval(6000, 60000, 'C15', EVAL_ATTR)]
 
 
 def c14(tier):
@@ -511,17 +511,17 @@ def c02(tier):
               invariants=['BuiltRight', 'AtMostOneSwap'], properties=['Terminates'], timeout=120, workers=1)
     if tier == 'quick':
         return [cn, parse_gen('soup2-full', 'C02', 2, 'full'), parse_gen('soup3-reduced', 'C02', 3, 'reduced'),
-                roundtrip('sentences-atoms', 'C02', 'atoms'), traceB_parse(6000, 200000, 'C02')]
+                roundtrip('sentences-atoms', 'C02', 'atoms'), traceB_parse(6000, 60000, 'C02')]
     return [cn, parse_gen('soup3-full', 'C02', 3, 'full', 3600), parse_gen('soup4-reduced', 'C02', 4, 'reduced', 7200),
-            roundtrip('sentences-atoms', 'C02', 'atoms'), roundtrip('sentences-steps', 'C02', 'steps', 7200), traceB_parse(6000, 200000, 'C02')]
+            roundtrip('sentences-atoms', 'C02', 'atoms'), roundtrip('sentences-steps', 'C02', 'steps', 7200), traceB_parse(6000, 60000, 'C02')]
 
 
 def c17(tier):
     if tier == 'quick':
         return [parse_gen('soup2-full', 'C17', 2, 'full'), parse_gen('soup3-reduced', 'C17', 3, 'reduced'),
-                traceB_parse(8000, 300000, 'C17')]
+                traceB_parse(8000, 80000, 'C17')]
     return [parse_gen('soup3-full', 'C17', 3, 'full', 3600), parse_gen('soup4-reduced', 'C17', 4, 'reduced', 7200),
-            roundtrip('sentences-atoms', 'C17', 'atoms'), roundtrip('sentences-steps', 'C17', 'steps', 7200), traceB_parse(8000, 300000, 'C17')]
+            roundtrip('sentences-atoms', 'C17', 'atoms'), roundtrip('sentences-steps', 'C17', 'steps', 7200), traceB_parse(8000, 80000, 'C17')]
 
 
 CHECKS = {
@@ -533,8 +533,8 @@ CHECKS = {
     'C20': dict(stages=c20, level='model_checking'),
     'C01': dict(stages=c01, level='model_checking'),
     'C02': dict(stages=c02, level='model_checking'),
-    'C03': dict(stages=simple_sel('C03', ['LawFailsIffEmpty'], extra=[lambda: SLICES('C03'), lambda: traceB_eval(4000, 200000, 'C03', EVAL_ATTR)]), level='model_checking'),
-    'C04': dict(stages=simple_sel('C04', extra=[lambda: filterproto(1), lambda: filt('filters', 'C04', 2, 2, 'arr', 'two'), lambda: traceB_eval(3000, 200000, 'C04', EVAL_ATTR)], quick_scope='triples'), level='model_checking'),
+    'C03': dict(stages=simple_sel('C03', ['LawFailsIffEmpty'], extra=[lambda: SLICES('C03'), lambda: traceB_eval(4000, 60000, 'C03', EVAL_ATTR)]), level='model_checking'),
+    'C04': dict(stages=simple_sel('C04', extra=[lambda: filterproto(1), lambda: filt('filters', 'C04', 2, 2, 'arr', 'two'), lambda: traceB_eval(3000, 60000, 'C04', EVAL_ATTR)], quick_scope='triples'), level='model_checking'),
     'C07': dict(stages=c07, level='model_checking'),
     'C08': dict(stages=c08, level='model_checking'),
     'C11': dict(stages=c11, level='model_checking'),
